@@ -9,6 +9,7 @@ find|filter|all|best|is <pat> <emax> <indel> <rc> <seq> <circ> <begin> <length>
                                                                  -> err | rcerr | hits | panic
 locate <pat> <seq>                                               -> panic | <from> <to> <score>
 budget <pat> <emax> <indel> <seq>                                -> err | unmodelled | ok <hits>     (MakeApatPattern with its budget guard + FindAllIndex)
+conc   <g> <r> <n> n × [<pat> <emax> <indel> <seq>]              -> hits ; hits ; ...   (each scan alone; the harness repeats them from g goroutines)
 ```
 byte strings in hex; `rc` = 1: the search is done with `pattern.ReverseComplement()`. -/
 namespace ObiVerif.Driver.C10
@@ -24,8 +25,27 @@ def showHits (l : List Hit) : String :=
 
 def bool? (s : String) : Option Bool := if s = "1" then some true else if s = "0" then some false else none
 
+/-- one sub-case of `conc`: `FindAllIndex` of the pattern on the (linear) sequence, scanned alone -/
+def concSub (p e i s : String) : String :=
+  match unhex p, e.toNat?, bool? i, unhex s with
+  | some p, some e, some i, some s =>
+    match makeApatPattern p e i with
+    | .error _ => "bad-op"
+    | .ok P => if P.patlen ≥ 64 then "bad-op" else showHits (findAllIndex P (s.map lowerByte) false 0 (-1))
+  | _, _, _, _ => "bad-op"
+
+def concSubs : List String → Option (List String)
+  | [] => some []
+  | p :: e :: i :: s :: rest => (concSubs rest).map (concSub p e i s :: ·)
+  | _ => none
+
 def run (line : String) : String :=
   match words line with
+  | "conc" :: _g :: _r :: n :: rest =>
+    -- the answers of the n scans run one after the other; the harness demands the same from every concurrent scan
+    match n.toNat?, concSubs rest with
+    | some n, some rs => if rs.length = n ∧ ¬ rs.contains "bad-op" then " ; ".intercalate rs else "bad-op"
+    | _, _ => "bad-op"
   | [op, p, e, i] =>
     match unhex p, e.toNat?, bool? i with
     | some p, some e, some i =>
